@@ -24,7 +24,7 @@ History operations (mirroring coq/C07/World.v:wop):
   ('open',) / ('close', fd)   unrelated descriptors
 
 A process configuration is (redirect_stderr, stdout_capture_maxbytes, stderr_capture_maxbytes,
-stdout_events_enabled, stderr_events_enabled[, no log files[, (logfile_maxbytes, logfile_backups)]]).
+stdout_events_enabled, stderr_events_enabled[, no log files[, (logfile_maxbytes, logfile_backups)[, logfiles AUTO]]]).
 """
 import errno
 import os
@@ -132,6 +132,8 @@ class OsProxy(object):
         return self._h.kernel.pipe()
 
     def close(self, fd):
+        if getattr(self._h, 'passthrough', False):
+            return self._real.close(fd)      # a real descriptor (mkstemp while naming AUTO logs)
         return self._h.kernel.close(fd)
 
     def read(self, fd, n):
@@ -187,7 +189,13 @@ class Seam(object):
         self.so.os = self._real_os
         self.so.fcntl = self._real_fcntl
 
+    _autofiles = []
+
     def start(self, cfgs, strip, nopen):
+        for f in self._autofiles:
+            if isinstance(f, str) and os.path.exists(f):
+                os.unlink(f)
+        self._autofiles = []
         from supervisor import options as so, supervisord, events, loggers
         from supervisor.options import ServerOptions, ProcessConfig, ProcessGroupConfig
         self.kernel = Kernel(nopen)
@@ -205,12 +213,16 @@ class Seam(object):
         pconfigs = []
         self.nolog = []
         self.rot = []
+        autos = []
+        opts.childlogdir = self.workdir
+        opts.identifier = 'supervisor'
         self.cleared = [False] * len(cfgs)
         self.header_errors = []
         for i, cfg in enumerate(cfgs):
             redirect, cap_out, cap_err, ev_out, ev_err = cfg[:5]
             nolog = bool(cfg[5]) if len(cfg) > 5 else False
             rot = cfg[6] if len(cfg) > 6 and cfg[6] else (0, 0)
+            auto = bool(cfg[7]) if len(cfg) > 7 else False
             self.nolog.append(nolog)
             self.rot.append(rot)
             out = os.path.join(self.workdir, 'p%d.out' % i)
@@ -222,6 +234,11 @@ class Seam(object):
             self.paths.append((out, err))
             if nolog:
                 out = err = None
+            if auto:
+                # stdout_logfile=AUTO / stderr_logfile=AUTO: named by the real create_autochildlogs()
+                from supervisor.datatypes import Automatic
+                out = err = Automatic
+                autos.append(i)
             pconfigs.append(ProcessConfig(
                 opts, name='proc%d' % i, uid=None, command='/bin/sh', directory=None, umask=None,
                 priority=999, autostart=False, autorestart=False, startsecs=0, startretries=3,
@@ -233,6 +250,18 @@ class Seam(object):
                 exitcodes=[0], redirect_stderr=redirect, environment=None, serverurl=None))
         # two groups, insertion order = process index order
         gconfigs = [ProcessGroupConfig(opts, 'g0', 999, pconfigs[:2]), ProcessGroupConfig(opts, 'g1', 999, pconfigs[2:])]
+        self.passthrough = True
+        try:
+            for gc in gconfigs:
+                gc.after_setuid()         # real: ProcessConfig.create_autochildlogs()
+        finally:
+            self.passthrough = False
+        for i in autos:
+            pc = pconfigs[i]
+            if not (isinstance(pc.stdout_logfile, str) and os.path.dirname(pc.stdout_logfile) == self.workdir):
+                raise HarnessFailure('AUTO stdout log not created in childlogdir: %r' % (pc.stdout_logfile,))
+            self._autofiles.extend([pc.stdout_logfile, pc.stderr_logfile])
+            self.paths[i] = (pc.stdout_logfile, pc.stderr_logfile if not cfgs[i][0] else self.paths[i][1])
         self.sup = supervisord.Supervisor(opts)
         self.procs = []
         for gc in gconfigs:
@@ -245,6 +274,7 @@ class Seam(object):
         self.child = [None] * len(cfgs)      # per process: {'stdout': pipe id, 'stderr': pipe id, 'alive': bool}
         self.events = []
         events.clear()
+        self._plog_type = events.ProcessLogEvent
         events.subscribe(events.ProcessLogEvent, self._on_plog)
         events.subscribe(events.ProcessCommunicationEvent, self._on_comm)
         self.written = [[] for _ in cfgs]    # per process: list of incarnations {'stdout': bytes, 'stderr': bytes}
@@ -262,8 +292,12 @@ class Seam(object):
             self.header_errors.append('event with pid %r for %s whose current pid is %r'
                                       % (e.pid, e.process.config.name, e.process.pid))
         payload = e.payload()
-        want = 'processname:%s groupname:%s pid:%s channel:%s\n' % (
-            e.process.config.name, e.process.group.config.name, e.pid, e.channel)
+        if isinstance(e, self._plog_type):
+            want = 'processname:%s groupname:%s pid:%s channel:%s\n' % (
+                e.process.config.name, e.process.group.config.name, e.pid, e.channel)
+        else:
+            # PROCESS_COMMUNICATION: the channel is in the event type name only (docs/events.rst)
+            want = 'processname:%s groupname:%s pid:%s\n' % (e.process.config.name, e.process.group.config.name, e.pid)
         if not payload.startswith(want):
             self.header_errors.append('event payload header %r, expected %r' % (payload[:80], want))
 
